@@ -23,6 +23,7 @@ import (
 	"sort"
 	"strings"
 	"sync"
+	"sync/atomic"
 	"time"
 
 	"github.com/TarsCloud/TarsGo/tars"
@@ -80,6 +81,11 @@ type c09Case struct {
 	KaPattern     []int    `json:"ka_pattern"`      // after every call: pause (ms) before each trigger of the adapters' keep-alive ping
 	ProxyByCall   bool     `json:"proxy_by_call"`   // with two proxies: the j-th call of every caller uses proxy j mod 2 (otherwise caller k uses proxy k mod 2)
 	SmallAfter    int      `json:"small_after"`     // > 0: calls from the j-th on carry 8-byte requests whatever req_size says
+	PerCallSet    bool     `json:"per_call_set"`    // current.SetClientTimeout is called even with per_call_ms <= 0
+	BigPrimeOnly  bool     `json:"big_prime_only"`  // only the priming call carries req_size bytes, the callers' requests are 8 bytes
+	PrimeAll      bool     `json:"prime_all"`       // one priming call per proxy (in parallel) before the callers start
+	StaggerUs     int      `json:"stagger_us"`      // > 0: the callers of proxy i leave together, i*stagger_us after the first group
+	SmallBuf      bool     `json:"small_buf"`       // the peer's sockets get a tiny receive buffer: a write of some 100 KB already blocks
 	HandshakeMs   int      `json:"handshake_ms"`    // tls-slow: delay of the peer's side of the TLS handshake
 	IdleMs        int      `json:"idle_ms"`         // > 0: the client's idle timeout (the sender goroutine checks it once per second)
 	Gaps          []int    `json:"gaps"`            // pause after the j-th call of a caller (overrides gap_ms; the last one repeats)
@@ -103,14 +109,19 @@ func (c *c09Case) gap(j int) int {
 	return c.Gaps[len(c.Gaps)-1]
 }
 
+// eff is the call's effective timeout in ms: the caller's context deadline, else the per-call timeout if one is set, else
+// the proxy's; a zero or negative timeout is a deadline that has passed when the call starts.
 func (c *c09Case) eff() int {
+	e := c.TimeoutMs
 	if c.CtxMs > 0 {
-		return c.CtxMs
+		e = c.CtxMs
+	} else if c.PerCallSet || c.PerCallMs > 0 {
+		e = c.PerCallMs
 	}
-	if c.PerCallMs > 0 {
-		return c.PerCallMs
+	if e < 0 {
+		e = 0
 	}
-	return c.TimeoutMs
+	return e
 }
 
 const (
@@ -159,6 +170,7 @@ func c09RunScenario(c *c09Case) *c09Obs {
 	peer, err := newC09Peer(log, c.Conn, c.Acts, func(p *c09Peer) {
 		p.earlyMs, p.earlyN, p.hsMs = c.EarlyMs, c.Callers*c.Calls, c.HandshakeMs
 		p.sweepT, p.sweepCalls = c.eff(), c.Calls
+		p.smallBuf = c.SmallBuf
 		if tlsm != nil {
 			p.tlsConf = tlsm.server
 			if c.Conn == "tls-untrusted" {
@@ -171,6 +183,10 @@ func c09RunScenario(c *c09Case) *c09Obs {
 		return obs
 	}
 	defer peer.shutdown()
+	if c.Conn == "transport-race" {
+		c09TransportRace(c, obs, peer.port)
+		return obs
+	}
 	comm := tars.NewCommunicator()
 	comm.Client.ClientDialTimeout = time.Duration(c.DialMs) * time.Millisecond
 	comm.Client.ClientWriteTimeout = time.Duration(c.WriteMs) * time.Millisecond
@@ -207,9 +223,9 @@ func c09RunScenario(c *c09Case) *c09Obs {
 		tars.VerifWarmAdapter(sp)
 	}
 	sps := []*tars.ServantProxy{sp}
-	if c.Proxies > 1 {
+	for i := 1; i < c.Proxies; i++ {
 		h2 := &c09Holder{}
-		comm.StringToProxy(fmt.Sprintf("VerifApp.C09Server.C09Other@%s -h 127.0.0.1 -p %d -t 60000", proto, peer.port), h2)
+		comm.StringToProxy(fmt.Sprintf("VerifApp.C09Server.C09Other%d@%s -h 127.0.0.1 -p %d -t 60000", i, proto, peer.port), h2)
 		if sp2, ok := h2.s.(*tars.ServantProxy); ok {
 			sp2.TarsSetTimeout(c.TimeoutMs)
 			if c.Warm {
@@ -224,7 +240,11 @@ func c09RunScenario(c *c09Case) *c09Obs {
 
 	var amu sync.Mutex
 	adps := map[*tars.AdapterProxy]bool{}
+	var quiet int32 // while set (many proxies, racing callers): the filter points do not read the counters
 	snapshot := func() (int32, int32, []int32) {
+		if atomic.LoadInt32(&quiet) != 0 {
+			return 0, 0, nil
+		}
 		amu.Lock()
 		var q, n int32
 		for _, p := range sps {
@@ -257,7 +277,7 @@ func c09RunScenario(c *c09Case) *c09Obs {
 		id     int32
 		status int32
 	}
-	infos := make([]callInfo, c.Callers*c.Calls+1)
+	infos := make([]callInfo, c.Callers*c.Calls+1+c.Proxies)
 	pre := func(ctx context.Context, msg *tars.Message) {
 		call, _ := ctx.Value(c09CtxKey{}).(int)
 		infos[call].id = msg.Req.IRequestId
@@ -320,6 +340,9 @@ func c09RunScenario(c *c09Case) *c09Obs {
 	if c.Prime {
 		ncalls++ // the priming call has the last index and runs first, alone
 	}
+	if c.PrimeAll {
+		ncalls = c.Callers*c.Calls + len(sps) // one priming call per proxy, in parallel, before the callers
+	}
 	results := make([]c09CallObs, ncalls)
 	for i := range results {
 		results[i] = c09CallObs{Call: i, Caller: i / c.Calls, Out: "hang"}
@@ -327,16 +350,20 @@ func c09RunScenario(c *c09Case) *c09Obs {
 	var rmu sync.Mutex
 	var wg sync.WaitGroup
 	start := make(chan struct{})
+	var goAt time.Time
 	doCall := func(call, k int) {
 		bsize := size
 		if c.SmallAfter > 0 && c.Calls > 0 && call%c.Calls >= c.SmallAfter {
+			bsize = 8
+		}
+		if c.BigPrimeOnly && call < c.Callers*c.Calls {
 			bsize = 8
 		}
 		buf := make([]byte, bsize)
 		tag := uint32(0xA0000000) | uint32(call)
 		buf[0], buf[1], buf[2], buf[3] = byte(tag>>24), byte(tag>>16), byte(tag>>8), byte(tag)
 		ctx := current.ContextWithClientCurrent(context.WithValue(context.Background(), c09CtxKey{}, call))
-		if c.PerCallMs > 0 {
+		if c.PerCallSet || c.PerCallMs > 0 {
 			current.SetClientTimeout(ctx, c.PerCallMs)
 		}
 		cancel := func() {}
@@ -351,7 +378,9 @@ func c09RunScenario(c *c09Case) *c09Obs {
 			ctype = byte(basef.TARSONEWAY)
 		}
 		psp := sps[0]
-		if c.ProxyByCall && c.Calls > 0 && k >= 0 {
+		if k < 0 && c.PrimeAll {
+			psp = sps[(call-c.Callers*c.Calls)%len(sps)]
+		} else if c.ProxyByCall && c.Calls > 0 && k >= 0 {
 			psp = sps[(call%c.Calls)%len(sps)]
 		} else if k > 0 {
 			psp = sps[k%len(sps)]
@@ -393,6 +422,16 @@ func c09RunScenario(c *c09Case) *c09Obs {
 		go func(k int) {
 			defer wg.Done()
 			<-start
+			if c.StaggerUs > 0 {
+				// the callers of one proxy leave at the same instant, the groups one after the other so that a group really
+				// runs in parallel
+				at := goAt.Add(time.Duration((k%len(sps))*c.StaggerUs) * time.Microsecond)
+				if d := time.Until(at) - 150*time.Microsecond; d > 0 {
+					time.Sleep(d)
+				}
+				for time.Now().Before(at) {
+				}
+			}
 			for j := 0; j < c.Calls; j++ {
 				doCall(k*c.Calls+j, k)
 				t1 := time.Now()
@@ -442,7 +481,19 @@ func c09RunScenario(c *c09Case) *c09Obs {
 	log.mu.Lock()
 	log.t0 = time.Now()
 	log.mu.Unlock()
-	if c.Prime {
+	if c.PrimeAll {
+		var pw sync.WaitGroup
+		for i := range sps {
+			pw.Add(1)
+			go func(i int) { defer pw.Done(); doCall(c.Callers*c.Calls+i, -1) }(i)
+		}
+		pd := make(chan struct{})
+		go func() { pw.Wait(); close(pd) }()
+		select {
+		case <-pd:
+		case <-time.After(time.Duration(c.eff()+c.DialMs+c.WriteMs+4000) * time.Millisecond):
+		}
+	} else if c.Prime {
 		pd := make(chan struct{})
 		go func() { doCall(c.Callers*c.Calls, -1); close(pd) }()
 		select {
@@ -450,6 +501,10 @@ func c09RunScenario(c *c09Case) *c09Obs {
 		case <-time.After(time.Duration(c.eff()+c.DialMs+c.WriteMs+4000) * time.Millisecond):
 		}
 	}
+	if c.StaggerUs > 0 {
+		atomic.StoreInt32(&quiet, 1)
+	}
+	goAt = time.Now().Add(20 * time.Millisecond)
 	close(start)
 	done := make(chan struct{})
 	go func() { wg.Wait(); close(done) }()
@@ -468,6 +523,7 @@ func c09RunScenario(c *c09Case) *c09Obs {
 	case <-done:
 	case <-time.After(hang):
 	}
+	atomic.StoreInt32(&quiet, 0)
 	close(stopSample)
 	<-sampled
 	// the counters are read immediately after the last call returned
@@ -764,7 +820,7 @@ func c09U(ms int) int { return ms / 10 }
 
 func c09Coq(c *c09Case) string {
 	o := c.Obs
-	if o == nil || o.Fatal != "" {
+	if o == nil || o.Fatal != "" || c.Conn == "transport-race" {
 		return ""
 	}
 	conn := map[string]string{"accept": "CAccept", "udp": "CAccept", "udp-unreachable": "CAccept", "refuse": "CRefuse", "stall": "CStall", "tls": "CAccept", "tls-slow": fmt.Sprintf("(CSlowAccept %d)", c09U(c.HandshakeMs)), "tls-silent": "CStall", "tls-untrusted": "CRefuse", "accept-close": "CAcceptClose", "noread": "CNoRead", "noread-early": fmt.Sprintf("(CNoReadEarly %d)", c09U(c.EarlyMs))}[c.Conn]
@@ -1207,6 +1263,53 @@ func c09Gen(tier string, rng *rand.Rand) []c09Case {
 			}
 			cs = append(cs, c)
 		}
+		// ---- many concurrent callers on a send queue with one (two) free slot(s) against a peer that does not read: the
+		// priming call's 8 MB request keeps the send goroutine in conn.Write, then the callers arrive at the same instant; every
+		// call returns (the ones that find no room after WriteTimeout: the known finding) and nothing is left behind
+		for i := 0; i < 2; i++ {
+			c = base("send-queue-race", "noread", []c09Act{{Do: "none"}})
+			c.TimeoutMs = 100
+			c.DialMs = 200
+			c.WriteMs = 600
+			c.QueueLen = pick(1, 1, 2)
+			c.Callers = pick(16, 32, 64)
+			c.Prime = true
+			c.BigPrimeOnly = true
+			c.ReqSize = 8 << 20
+			cs = append(cs, c)
+		}
+		// ... and at the transport level, where the callers of one client really collide on connLock and on the one free slot:
+		// many clients, each with its send goroutine stuck in conn.Write, two or three callers per client leave together; every
+		// Send returns within DialTimeout + WriteTimeout (monitor only)
+		cs = append(cs, c09TransportRaceCase(base, pick))
+		// ---- effective timeout zero or negative, set on the proxy or per call, with and without a caller deadline, silent and
+		// slow peers: a deadline that has passed at the start gives the timeout error at once; a caller deadline still wins
+		for _, v := range []int{0, pick(-1, -50)} {
+			c = base("timeout-nonpositive-proxy", "accept", []c09Act{{"none", 0}, {"reply", 100}, {"none", 0}})
+			c.TimeoutMs = v
+			c.Calls = 3
+			c.GapMs = 20
+			cs = append(cs, c)
+			c = base("timeout-nonpositive-per-call", "accept", []c09Act{{"none", 0}, {"reply", 100}})
+			c.PerCallSet, c.PerCallMs = true, v
+			c.Calls = 2
+			c.GapMs = 20
+			cs = append(cs, c)
+		}
+		c = base("timeout-zero-concurrent", "accept", []c09Act{{Do: "none"}})
+		c.TimeoutMs = 0
+		c.Callers = pick(2, 8)
+		cs = append(cs, c)
+		c = base("timeout-zero-with-caller-deadline", "accept", []c09Act{{"none", 0}, {"reply", 100}})
+		c.TimeoutMs = 0
+		if rng.Intn(2) == 0 {
+			c.TimeoutMs = 300
+			c.PerCallSet, c.PerCallMs = true, pick(0, -10)
+		}
+		c.CtxMs = pick(200, 250)
+		c.Calls = 2
+		c.GapMs = 20
+		cs = append(cs, c)
 		// datagram transport: no connection to establish or lose
 		c = base("udp-mixed-sequential", "udp", nil)
 		T = c.TimeoutMs
@@ -1301,10 +1404,29 @@ func c09Gen(tier string, rng *rand.Rand) []c09Case {
 		c.Callers = pick(2, 6)
 		cs = append(cs, c)
 	}
+	// a second instance, away from the first in the schedule (two of them at once load the machine needlessly)
+	cs = append(cs, c09TransportRaceCase(base, pick))
 	for i := range cs {
 		cs[i].Procs = pick(0, 0, 0, 1, 2, 4)
+		if strings.HasPrefix(cs[i].Name, "send-queue-race") || strings.HasPrefix(cs[i].Name, "transport-send-race") {
+			cs[i].Procs = 0 // the race needs callers that really run in parallel
+		}
 	}
 	return cs
+}
+
+func c09TransportRaceCase(base func(name, conn string, acts []c09Act) c09Case, pick func(l ...int) int) c09Case {
+	c := base("transport-send-race", "transport-race", []c09Act{{Do: "none"}})
+	c.DialMs = 300
+	c.WriteMs = 500
+	c.TimeoutMs = c.WriteMs + 1000 // the bound checked: dial bound + write timeout + 1 s (the 8 MB writes of many clients can stall a loaded machine) + slack; a Send that lost the race never returns
+	c.QueueLen = 1
+	c.Proxies = pick(40, 48)
+	c.Callers = c.Proxies * pick(2, 3)
+	c.StaggerUs = 1000
+	c.ReqSize = 8 << 20 // past what the socket buffers of a peer that does not read take
+	c.Predict = false
+	return c
 }
 
 func c09Class(c *c09Case) string {
@@ -1327,7 +1449,7 @@ func c09Class(c *c09Case) string {
 	dl := "cfg"
 	if c.CtxMs > 0 {
 		dl = "ctx"
-	} else if c.PerCallMs > 0 {
+	} else if c.PerCallSet || c.PerCallMs > 0 {
 		dl = "percall"
 	}
 	return c.Conn + "/" + c09ActsKey(c) + "/" + conc + "/" + dl + "/" + c.Filter + "/" + strings.Join(ks, "+")
